@@ -112,6 +112,8 @@ class MinSetCover():
             return True
         else:
             self._is_solved = False
+            # do not keep serving the solution of an earlier, successful call of solve()
+            self._solution = None
             self.solve_statistics = {
                 "solve_time": time.perf_counter() - start_time,
                 "status": self.solver.get_model_status(),
